@@ -122,9 +122,11 @@ def run_files(case):
         cue = os.path.join(d, "disc.cue")
         with open(cue, "w") as f:
             f.write(Q.cue_text("disc.bin", tracks))
-        res = tree.full_run(cue, cpu_s=60.0, ls_paths=("",))
+        res = tree.full_run(cue, cpu_s=60.0, ls_paths=("",), again=True)
     if res["status"] == "hang":
         return False, "hang", {"observed": "non-termination"}
+    if res.get("again"):
+        return False, "second-export-differs", res["again"]
     if res["status"] == "exc":
         return False, "raised:" + exc_sig(res["exc"]), {"observed": repr(res["exc"])[:300]}
     exp = {}
